@@ -37,6 +37,8 @@ MIN_REACH = {
     "fresh_process_steps": {"quick": 8, "thorough": 150},
     "conflicts_agreed": {"quick": 2, "thorough": 40},
     "resown_from_reloaded_crop": {"quick": 20, "thorough": 250},
+    "crops_whose_function_was_assigned_through_the_crop": {"quick": 5, "thorough": 60},
+    "farmer_crops_built_by_the_generic_constructor_with_shuffle": {"quick": 10, "thorough": 100},
 }
 TIME_BUDGET = {"quick": 400, "thorough": 3400}
 CASE_TIMEOUT = {"quick": 300, "thorough": 600}
@@ -131,7 +133,15 @@ def run_case(ctx, case):
     fn1 = cropkit.build_probe(kind, log1, name="fprobe", by_value=case["fresh"])
     fn2 = probe.Probe(kind, logfile=log2, name="fprobe")
     ver = 2 if farmer == "harvester" else None
-    r1 = _make_runner(xyzpy, fn1, case, ver)
+    via_setter = case["idx"] % 6 == 3 and not case.get("writer_between") and farmer != "sampler"    # (a Sampler is also sampled directly here)
+    if via_setter:
+        # the farmer is built around an EARLIER version of the function; the one to grow is assigned to the crop (crop.fn = f)
+        def earlier_version(**kw):
+            return -12345.0
+        r1 = _make_runner(xyzpy, earlier_version, case, ver)
+        ctx.count("crops_whose_function_was_assigned_through_the_crop")
+    else:
+        r1 = _make_runner(xyzpy, fn1, case, ver)
     r2 = _make_runner(xyzpy, fn2, case, ver)
     combos = [(a, list(v)) for a, v in w["combos"]]
     cases_l = [dict(c) for c in w["cases"]] if w["cases"] else None
@@ -199,14 +209,24 @@ def run_case(ctx, case):
                     for f in (f1, f2):
                         f.harvest_combos({**dict(gens.spell_combos(combos, "dict")), a0: [new[0]]}, verbosity=0)
             # ---------------- crop side ----------------
-            crop = f1.Crop(name=name, parent_dir=tmp, **ckw)
-            if case["shuffle"]:
+            ctor_shuffle = bool(case["shuffle"]) and case["idx"] % 2 == 1 and farmer != "sampler"
+            if ctor_shuffle:
+                # the generic constructor with the farmer and a shuffle setting; the sow call then names none (or None)
+                crop = xyzpy.Crop(farmer=f1, name=name, parent_dir=tmp, shuffle=case["shuffle"], **ckw)
+                ctx.count("farmer_crops_built_by_the_generic_constructor_with_shuffle")
+            else:
+                crop = f1.Crop(name=name, parent_dir=tmp, **ckw)
+            if via_setter:
+                crop.fn = fn1
+            if case["shuffle"] and not ctor_shuffle:
                 crop.shuffle = case["shuffle"]
             if farmer == "sampler":
                 np.random.seed(case["rseed"] % (2 ** 32))
                 crop.sow_samples(case["n_samples"], verbosity=0)
             else:
                 shuffle_at_sow = case["shuffle"] if (w["mode"] == "grid" or w.get("via") == "sow_combos") and case["shuffle"] else None
+                if ctor_shuffle:
+                    shuffle_at_sow = None if case["idx"] % 4 == 1 else "keep"
                 cropkit.sow(crop, w, shuffle_at_sow=shuffle_at_sow)
             if case.get("tweak_then_resow") and not case.get("resow_reloaded"):
                 # the documented "tweak a constant and sow again" on the same Crop object; both sides get the new value
